@@ -286,11 +286,11 @@ def measure(pattern, flags, tree, hit_path, progress):
 def _child(q, sample_files, progress_path):
     try:
         inv = inventory(sample_files)
-        res = {'patterns': len(inv), 'screened': [], 'all': [{'pattern': p[:200], 'flags': f, 'where': w[:3]} for (p, f), w in sorted(inv.items(), key=lambda kv: kv[0][0])]}
+        res = {'patterns': len(inv), 'screened': [], 'all': [{'pattern': repr(p)[:200], 'flags': f, 'where': w[:3]} for (p, f), w in sorted(inv.items(), key=lambda kv: repr(kv[0][0]))]}
         def progress(pattern, n):
             with open(progress_path, 'w') as f:
                 f.write(repr(pattern)[:300] + ' n=%d' % n)
-        for (p, f), where in sorted(inv.items(), key=lambda kv: kv[0][0]):
+        for (p, f), where in sorted(inv.items(), key=lambda kv: repr(kv[0][0])):
             if isinstance(p, bytes):
                 continue
             tree, hits = screen(p, f)
